@@ -2,7 +2,7 @@
 # Run once after a fresh restore, offline: generate the runtime overlay, warm
 # the build cache, build the driver, and prove the simulator deterministic on a
 # short sample before any check is believed.
-cd /verif || exit 2
+D=$(cd "$(dirname "$0")" && pwd); cd "$D" || exit 2; export VERIF_DIR="$D"
 export GOFLAGS=-mod=mod GOPROXY=off GOSUMDB=off GOTOOLCHAIN=local
 export GOCACHE=${VERIF_GOCACHE:-/var/tmp/verif-gocache}
 mkdir -p bin
